@@ -111,5 +111,5 @@ Definition payload (c : call) : bytes :=
   | _ => []
   end.
 
-Definition text_plain : bytes := S2B "text/plain; charset=utf-8".
+Definition text_plain : bytes := S2B "text/plain; charset=UTF-8".   (* fox.MIMETextPlainCharsetUTF8 *)
 Definition text_html : bytes := S2B "text/html; charset=utf-8".
